@@ -54,11 +54,11 @@ Proof. vm_compute. reflexivity. Qed.
    a data sheet, campaign re-defined in the nested index (group g2), sheet A taken from the
    second workbook *)
 Definition ex_view (out : output) :=
-  (map of_name (o_flows out), map of_sheet (o_flows out), o_camps out, o_trigs out).
+  (map of_name (o_flows out), map of_sheet (o_flows out), map of_targ (o_flows out), o_camps out, o_trigs out).
 
 Lemma ex_run :
   rmap ex_view (create_flows ex_fuel ex_params ex_wbs) =
-  Ok ([sX; sA; sC_r1; sC_r2], [(1, sA); (1, sA); (1, sC); (1, sC)],
+  Ok ([sX; sA; sC_r1; sC_r2], [(1, sA); (1, sA); (1, sC); (1, sC)], [s_t1; s_t1; []; []],
       [mk_ocamp sCamp (0, sC1) s_g2], [mk_otrig (0, sT1) 0 sX]).
 Proof. vm_compute. reflexivity. Qed.
 
@@ -160,7 +160,7 @@ Proof. vm_compute. reflexivity. Qed.
 Lemma design_item3_literal_refuted : ~ design_item3_literal.
 Proof.
   intros H. destruct (rmap_ok _ _ _ ex_run) as [out [Hc Hv]]. destruct ex_history as [Hp Hh].
-  specialize (H _ _ _ _ _ _ Hc Hp Hh sC_r1). unfold ex_view in Hv. injection Hv as Hn _ _ _. rewrite Hn in H.
+  specialize (H _ _ _ _ _ _ Hc Hp Hh sC_r1). unfold ex_view in Hv. injection Hv as Hn _ _ _ _. rewrite Hn in H.
   destruct (proj1 H) as [f [Hin Hk]]; [right; right; left; reflexivity|].
   apply (in_map fd_key) in Hin. rewrite ex_keys, Hk in Hin.
   destruct Hin as [Hx|[Hx|[Hx|[Hx|[]]]]]; vm_compute in Hx; discriminate.
